@@ -85,6 +85,16 @@ class Prop:
             alts = g["alts"] if not quick else [a for i, a in enumerate(g["alts"]) if a[0] != "move" or i % 4 == 0]
             for i in range(0, len(alts), CHUNK):
                 yield dict(kind="alts", univ=g["univ"], setup=g["setup"], alts=alts[i:i + CHUNK], label=g["label"])
+        for g in mut.gen_addtree(typed=(False,) if quick else (False, True)):
+            for i in range(0, len(g["alts"]), CHUNK):
+                yield dict(kind="alts", univ=g["univ"], setup=g["setup"], alts=g["alts"][i:i + CHUNK], label=g["label"])
+        if quick:
+            for g in mut.gen_exhaustive(2, typed=(True,), labelings=("distinct",), families=("add", "short", "remove", "move", "sort", "set_data"), nmin=1):
+                for i in range(0, len(g["alts"]), CHUNK):
+                    yield dict(kind="alts", univ=g["univ"], setup=g["setup"], alts=g["alts"][i:i + CHUNK], label=g["label"] + "/typed")
+            # siblings of alternating kinds: the kind-aware shortcuts must use ANY_KIND neighbours
+            for g in mut.gen_shapes([((), (), ()), (((), (), ()),)], labelings=("distinct",), typed=(True,), families=("short", "add")):
+                yield dict(kind="alts", univ=g["univ"], setup=g["setup"], alts=g["alts"][:2 * CHUNK], label=g["label"] + "/typed")
         if not quick:
             for g in mut.gen_exhaustive(3, typed=(True,)):
                 for i in range(0, len(g["alts"]), CHUNK):
